@@ -142,7 +142,9 @@ func gen(c *common.Ctx, spec []specCase, emit func(...string)) {
 	// arbitrary bytes
 	n = c.Scale(3000, 40000)
 	alpha := []string{"*", "_", "`", "[", "]", "(", ")", "<", ">", "!", "\\", "&", "#", ";", "-", "+", ">", "1.", "\n", "\n", " ", " ", "\t", "\r",
-		"a", "b", "\xff", "\xc3", "é", "\x00", "~~~", "```", "<!--", "-->", "<?", "?>", "<![CDATA[", "]]>", "<a", "</a>", "<pre", "</pre>", "    ", "=", "{#x}", "\"", "'", "&#", "&#x", " "}
+		"a", "b", "\xff", "\xc3", "é", "\x00", "~~~", "```", "<!--", "-->", "<?", "?>", "<![CDATA[", "]]>", "<a", "</a>", "<pre", "</pre>", "    ", "=", "{#x}", "\"", "'", "&#", "&#x", " ",
+		// raw HTML the TTY codec interprets (an unbalanced </kbd> used to pop an empty styling stack)
+		"<kbd>", "</kbd>", "</kbd>"}
 	for i := 0; i < n; i++ {
 		var sb strings.Builder
 		if c.Rand.Chance(1, 3) {
